@@ -53,7 +53,7 @@ theorem step_ok {c : Cache} {st : St} {B : Nat} (inv : Inv c st B) (i : Nat) (op
         refine StepOK.of { c with snapshotting := false, snapshot := some ⟨[], 0⟩, snapshotSize := 0 } .ok
           { st with snapshotting := false, snap := [], snapSize := 0 } []
           (by simp [step, Cache.clearSnapshot, hs]) (by simp [stepSt, hex]) ?_ (FailsOK.nil st)
-        exact ⟨inv.hot, inv.hotOK, rfl, StoreOK.nil, rfl, rfl, rfl, rfl, inv.maxSize,
+        exact ⟨inv.hot, inv.hotOK, rfl, StoreOK.nil, hex, rfl, rfl, rfl, inv.maxSize,
           ⟨rh, hrh, hrh0⟩, ⟨0, rfl, fun _ => rfl⟩, by simp only [opBytes]; omega⟩
       | false =>
         refine StepOK.of { c with snapshotting := false, snapshot := some sn } .ok
@@ -64,7 +64,7 @@ theorem step_ok {c : Cache} {st : St} {B : Nat} (inv : Inv c st B) (i : Nat) (op
         have e2 : snapSz { c with snapshotting := false, snapshot := some sn } = snapSz c := by
           simp [snapSz, hs]
         exact ⟨inv.hot, inv.hotOK, by rw [e1]; exact inv.snap, by rw [e1]; exact inv.snapOK,
-          by rw [inv.snapExists, hs]; rfl, by rw [e2]; exact inv.snapSize, by rw [e2]; exact inv.ssize, rfl,
+          by rw [inv.snapExists, hs], by rw [e2]; exact inv.snapSize, by rw [e2]; exact inv.ssize, rfl,
           inv.maxSize, ⟨rh, hrh, hrh0⟩, ⟨rs, hrs, hrs0⟩, by simp only [opBytes]; omega⟩
   | dedup =>
     -- every hot entry is compacted in place; `size` is not touched
@@ -128,7 +128,9 @@ theorem step_ok {c : Cache} {st : St} {B : Nat} (inv : Inv c st B) (i : Nat) (op
           rw [if_pos (by omega)]
         · have h1 : st.snapSize > 0 := by rw [inv.snapSize]; exact hpos
           have h2 : sn.store.count = liveKeys st.snap := by rw [inv.snap, count_eq]; simp [snapStore, hs]
-          simp [stepSt, hsn', h1, inv.snapSize, hsz, h2]
+          simp only [stepSt, hsn', Bool.false_eq_true, if_false]
+          rw [if_pos h1]
+          simp [inv.snapSize, hsz, h2]
         · have e1 : snapStore { c with snapshotting := true, snapshot := some sn } = snapStore c := by
             simp [snapStore, hs]
           have e2 : snapSz { c with snapshotting := true, snapshot := some sn } = snapSz c := by
@@ -165,13 +167,8 @@ theorem step_ok {c : Cache} {st : St} {B : Nat} (inv : Inv c st B) (i : Nat) (op
     simp only at hh hs
     rw [← inv.hot] at hh
     rw [← inv.snap] at hs
-    -- the two new stores
-    generalize hst : (match (c.store.lookup k).map Entry.deduplicate with
-      | some x => c.store.set k x
-      | none => c.store) = store' at hh
-    generalize hsn : (match ((snapStore c).lookup k).map Entry.deduplicate with
-      | some x => (snapStore c).set k x
-      | none => snapStore c) = snap' at hs
+    generalize hst : compactStore c.store k = store' at hh
+    generalize hsn : compactStore (snapStore c) k = snap' at hs
     have hres := values_result c.store (snapStore c) k
     rw [← inv.hot, ← inv.snap] at hres
     -- the new cache, whichever branch `Cache.values` takes
@@ -183,60 +180,60 @@ theorem step_ok {c : Cache} {st : St} {B : Nat} (inv : Inv c st B) (i : Nat) (op
       | none =>
         cases hsl : c.snapshot with
         | none =>
-          refine ⟨c, ?_, ?_, ?_, rfl, rfl, rfl, rfl, rfl, rfl⟩
+          refine ⟨c, ?_, ?_, ?_, rfl, rfl, rfl, rfl, by simp [hsl], by simp [snapSz, hsl]⟩
           · simp only [step, Cache.values, Store.entry, hl, hsl]
             have : st.snap.get k = [] := by rw [inv.snap]; simp [snapStore, hsl, Held.get]
             have h2 : st.hot.get k = [] := by rw [inv.hot, toHeld_get, hl]; rfl
             rw [this, h2]; rfl
-          · rw [← hst, hl]; rfl
-          · rw [← hsn]; simp [snapStore, hsl]
+          · rw [← hst, compactStore_none hl]
+          · rw [← hsn]; simp [snapStore, hsl, compactStore]
         | some sn =>
           cases hsk : sn.store.lookup k with
           | none =>
-            refine ⟨c, ?_, ?_, ?_, rfl, rfl, rfl, rfl, rfl, rfl⟩
+            refine ⟨c, ?_, ?_, ?_, rfl, rfl, rfl, rfl, by simp [hsl], by simp [snapSz, hsl]⟩
             · simp only [step, Cache.values, Store.entry, hl, hsl, hsk]
               have : st.snap.get k = [] := by rw [inv.snap, toHeld_get]; simp [snapStore, hsl, hsk]
               have h2 : st.hot.get k = [] := by rw [inv.hot, toHeld_get, hl]; rfl
               rw [this, h2]; rfl
-            · rw [← hst, hl]; rfl
-            · rw [← hsn]; simp [snapStore, hsl, hsk]
+            · rw [← hst, compactStore_none hl]
+            · rw [← hsn]; simp [snapStore, hsl, hsk, compactStore]
           | some se =>
             refine ⟨{ c with store := c.store, snapshot := some { sn with store := sn.store.set k se.deduplicate } },
-              ?_, ?_, ?_, rfl, rfl, rfl, rfl, by simp [hsl], by simp [snapSz, hsl]⟩
+              ?_, ?_, ?_, by simp, by simp, by simp, by simp, by simp [hsl], by simp [snapSz, hsl]⟩
             · simp only [step, Cache.values, Store.entry, hl, hsl, hsk, Option.map_none, Option.map_some]
               rw [← hres]
               simp [snapStore, hsl, hsk, hl]
-            · rw [← hst, hl]; rfl
-            · rw [← hsn]; simp [snapStore, hsl, hsk]
+            · rw [← hst, compactStore_none hl]
+            · rw [← hsn]; simp [snapStore, hsl, hsk, compactStore]
       | some e =>
         cases hsl : c.snapshot with
         | none =>
-          refine ⟨{ c with store := c.store.set k e.deduplicate, snapshot := none }, ?_, ?_, ?_, rfl, rfl, rfl, rfl,
-            by simp [hsl], by simp [snapSz, hsl]⟩
+          refine ⟨{ c with store := c.store.set k e.deduplicate, snapshot := none }, ?_, ?_, ?_,
+            by simp, by simp, by simp, by simp, by simp [hsl], by simp [snapSz, hsl]⟩
           · simp only [step, Cache.values, Store.entry, hl, hsl, Option.map_none, Option.map_some]
             rw [← hres]
             simp [snapStore, hsl, hl]
-          · rw [← hst, hl]; rfl
-          · rw [← hsn]; simp [snapStore, hsl]
+          · rw [← hst, compactStore_some hl]
+          · rw [← hsn]; simp [snapStore, hsl, compactStore]
         | some sn =>
           cases hsk : sn.store.lookup k with
           | none =>
-            refine ⟨{ c with store := c.store.set k e.deduplicate, snapshot := some sn }, ?_, ?_, ?_, rfl, rfl, rfl,
-              rfl, by simp [hsl], by simp [snapSz, hsl]⟩
+            refine ⟨{ c with store := c.store.set k e.deduplicate, snapshot := some sn }, ?_, ?_, ?_,
+              by simp, by simp, by simp, by simp, by simp [hsl], by simp [snapSz, hsl]⟩
             · simp only [step, Cache.values, Store.entry, hl, hsl, hsk, Option.map_none, Option.map_some]
               rw [← hres]
               simp [snapStore, hsl, hsk, hl]
-            · rw [← hst, hl]; rfl
-            · rw [← hsn]; simp [snapStore, hsl, hsk]
+            · rw [← hst, compactStore_some hl]
+            · rw [← hsn]; simp [snapStore, hsl, hsk, compactStore]
           | some se =>
             refine ⟨{ c with store := c.store.set k e.deduplicate,
                              snapshot := some { sn with store := sn.store.set k se.deduplicate } },
-              ?_, ?_, ?_, rfl, rfl, rfl, rfl, by simp [hsl], by simp [snapSz, hsl]⟩
+              ?_, ?_, ?_, by simp, by simp, by simp, by simp, by simp [hsl], by simp [snapSz, hsl]⟩
             · simp only [step, Cache.values, Store.entry, hl, hsl, hsk, Option.map_some]
               rw [← hres]
               simp [snapStore, hsl, hsk, hl]
-            · rw [← hst, hl]; rfl
-            · rw [← hsn]; simp [snapStore, hsl, hsk]
+            · rw [← hst, compactStore_some hl]
+            · rw [← hsn]; simp [snapStore, hsl, hsk, compactStore]
     obtain ⟨c', hstep, hc1, hc2, hc3, hc4, hc5, hc6, hc7, hc8⟩ := key
     refine StepOK.of c' _
       { st with hot := st.hot.compact k, snap := st.snap.compact k,
